@@ -61,7 +61,7 @@ def shards(tier):
 def floors(tier):
     return {"fixtures": 2500, "fixtures_exhaustive_vectors": 600, "fixtures_last_valid_earlier_bad": 300,
             "subprocess_runs": 30 if tier == "quick" else 100, "stdin_fixtures": 40, "base_uri_fixtures": 40,
-            "validator_option_fixtures": 100, "validator_vs_dollar_schema_fixtures": 150, "mode:plain-custom": 500, "mode:plain-default": 300, "mode:pretty": 500,
+            "validator_option_fixtures": 100, "validator_vs_dollar_schema_fixtures": 150, "mode:plain-custom": 500, "mode:plain-default": 300, "mode:pretty": 500, "mode:plain-empty": 300,
             "exit0": 100, "exit_nonzero": 1000, "validation_chunks_checked": 3000, "load_diagnostics_checked": 1500}
 
 
@@ -221,6 +221,14 @@ def check(ctx, case, argv, mode, sp, schema_state, sval, insts, cls_opt, base_ur
         firsts = [err.find(SEP_A + p + SEP_B) for p in order]
         if firsts != sorted(firsts):
             return bad("order", "chunks do not follow the order of the instance list")
+    elif mode == "plain-empty":
+        # an empty custom format renders every validation error as nothing at all
+        ctx.count("validation_chunks_checked", sum(len(e) for _, e in expected_chunks))
+        lines = [l for l in err.split("\n") if l.strip()]
+        if len(lines) != len(load_bad):
+            return bad("validation-chunks", "--error-format '' but stderr has %d line(s) for %d load diagnostic(s): %r" % (
+                len(lines), len(load_bad), err[:300]))
+        remainder = err
     elif mode == "plain-default":
         for path, errs in expected_chunks:
             for e in errs:
@@ -272,7 +280,7 @@ def check(ctx, case, argv, mode, sp, schema_state, sval, insts, cls_opt, base_ur
             mentioned = path in err or path in out
             # the default plain format does not name the file of a validation error (its chunks were checked above)
             has_errors = any(p == path for p, _ in expected_chunks)
-            should = st in ("missing", "notjson") or (has_errors and mode != "plain-default") or (mode == "pretty")
+            should = st in ("missing", "notjson") or (has_errors and mode not in ("plain-default", "plain-empty")) or (mode == "pretty")
             if should and not mentioned:
                 return bad("instance-not-processed", "%s (%s) left no trace" % (os.path.basename(path), st))
 
@@ -294,6 +302,8 @@ def one(ctx, root, rng, n, schema_state, inst_states, mode, validator_opt=None, 
                 argv += ["-i", p]
         if mode == "plain-custom":
             argv += ["--error-format", CUSTOM_FORMAT]
+        elif mode == "plain-empty":
+            argv += ["--error-format", ""]
         elif mode == "pretty":
             argv += ["--output", "pretty"]
         elif rng.random() < 0.5:
@@ -351,6 +361,7 @@ def one(ctx, root, rng, n, schema_state, inst_states, mode, validator_opt=None, 
 
 STATES = ["missing", "notjson", "invalid", "valid"]
 MODES = ["plain-custom", "plain-default", "pretty"]
+ALL_MODES = MODES + ["plain-empty"]
 
 
 def run(ctx):
@@ -387,7 +398,7 @@ def run(ctx):
                 vec[-1] = "valid"
             if rng.random() < 0.15:
                 vec = ["valid"] * k
-            mode = rng.choice(MODES)
+            mode = rng.choice(ALL_MODES)
             r = rng.random()
             if r < 0.2:
                 one(ctx, root, rng, n, "valid", vec, mode, validator_opt=rng.choice(
